@@ -354,7 +354,7 @@ func accessOf(m *core.Model, f *core.Func, p core.Path, write bool, locks string
 			shared := false
 			for _, k := range fields {
 				o := ownerOf(k)
-				if !isQueryType(o) && o != "cursor" {
+				if !isQueryType(o) && !queryOwnedTypes(m)[o] {
 					shared = true
 				}
 			}
@@ -374,14 +374,86 @@ func accessOf(m *core.Model, f *core.Func, p core.Path, write bool, locks string
 	if isFilterType(o) && o != "UnsafeFilter" {
 		key = "Filter*." + strings.TrimPrefix(key, o+".")
 	}
-	if isQueryType(o) {
-		// fields of another query object reached through a pointer: still per-goroutine
+	if isQueryType(o) || queryOwnedTypes(m)[o] {
+		// fields of another query object reached through a pointer, or of a struct that only ever lives by value inside
+		// query objects (their cursor) and is reached through a method receiver: still per-goroutine
 		return nil
 	}
 	if o == "Relation" || o == "relationID" || o == "Entity" || o == "ID" {
 		return nil // value types copied per call
 	}
 	return []access{{key: key, write: write, locks: locks, fn: f, node: n}}
+}
+
+var queryOwnedCache = map[*core.Model]map[string]bool{}
+
+// queryOwnedTypes: named struct types of the package that occur as field types only by value and only inside query
+// types (or inside other such types). Their memory is part of the query value and therefore owned by the goroutine that
+// owns the query, also when accessed through the receiver of one of their own methods.
+func queryOwnedTypes(m *core.Model) map[string]bool {
+	if r, ok := queryOwnedCache[m]; ok {
+		return r
+	}
+	holders := map[string]map[string]bool{} // type -> owners that hold it by value
+	viaPointer := map[string]bool{}
+	for _, k := range m.AllFieldKeys() {
+		fv := m.FieldByKey(k)
+		if fv == nil {
+			continue
+		}
+		t := fv.Type()
+		ptr := false
+		for {
+			switch x := t.(type) {
+			case *types.Pointer:
+				t, ptr = x.Elem(), true
+				continue
+			case *types.Slice:
+				t, ptr = x.Elem(), true
+				continue
+			case *types.Map:
+				t, ptr = x.Elem(), true
+				continue
+			}
+			break
+		}
+		n := core.NamedName(t)
+		if n == "" {
+			continue
+		}
+		if _, isStruct := t.Underlying().(*types.Struct); !isStruct {
+			continue
+		}
+		if ptr {
+			viaPointer[n] = true
+			continue
+		}
+		if holders[n] == nil {
+			holders[n] = map[string]bool{}
+		}
+		holders[n][ownerOf(k)] = true
+	}
+	out := map[string]bool{}
+	for changed := true; changed; {
+		changed = false
+		for n, hs := range holders {
+			if out[n] || viaPointer[n] || isQueryType(n) {
+				continue
+			}
+			all := len(hs) > 0
+			for h := range hs {
+				if !isQueryType(h) && !out[h] {
+					all = false
+				}
+			}
+			if all {
+				out[n] = true
+				changed = true
+			}
+		}
+	}
+	queryOwnedCache[m] = out
+	return out
 }
 
 // c13r3: private copy of the relation slice.
